@@ -141,6 +141,7 @@ class AbsInt:
         self.dv = {}
         self.dvs = {}
         self.subst = {}          # frame -> generic arguments (type ids) of the inlined callee
+        self.quiet = 0           # > 0: a refinement re-execution; no obligations / hooks
 
     # ------------------------------------------------------------------ types
     def tname(self, tid):
@@ -1073,6 +1074,8 @@ class AbsInt:
 
     # ------------------------------------------------------------------ obligations
     def oblige(self, kind, b, bi, frame, ok, detail, cond=None):
+        if self.quiet:
+            return
         key = (b.path, bi, kind, frame)
         self.obl[key] = Obligation(kind, b.path, b.where(bi), ok, detail, frame, bi, cond)
 
@@ -1244,9 +1247,31 @@ class AbsInt:
         widened against their previous input."""
         order = b._rpo()
         rpo = {bi: i for i, bi in enumerate(order)}
-        pred = b.pred()
-        heads = {s for bi in order for s in b.succ()[bi] if rpo.get(s, 1 << 30) <= rpo[bi]}
+        succ = b.succ()
+
+        def trivial(x):
+            bl = b.blocks[x]
+            return bl['term']['k'] == 'goto' and not any(s['k'] == 'assign' for s in bl['st']) and not bl['cleanup']
+
+        def eff(x):
+            # skip blocks that only jump on: the join then happens where the loop condition is
+            # evaluated, which is what the per-edge exit refinement below needs
+            n_ = 0
+            while trivial(x) and n_ < 8 and b.blocks[x]['term']['t'] != x:
+                x = b.blocks[x]['term']['t']
+                n_ += 1
+            return x
+        reach_memo = {}
+
+        def reaches(a, h):
+            r = reach_memo.get(a)
+            if r is None:
+                r = b.reachable(a)
+                reach_memo[a] = r
+            return h in r
         edge = {}
+        into = {}
+        heads = set()
         inputs = {}
         rounds = {}
         heap = [(0, 0)]
@@ -1260,7 +1285,8 @@ class AbsInt:
             self.steps += 1
             if n > 20000:
                 raise AnalysisError('absint: no fixpoint in %s' % b.path)
-            ins = [edge[(p, bi)] for p in pred[bi] if (p, bi) in edge]
+            srcs = sorted(p for p in into.get(bi, ()) if (p, bi) in edge)
+            ins = [edge[(p, bi)] for p in srcs]
             if bi == 0:
                 ins = [st_in] + ins
             if not ins:
@@ -1282,13 +1308,37 @@ class AbsInt:
                 outs = self.exec_block(b, frame, bi, st, depth)
             except Bottom:
                 outs = []
+            # loop exits of a head that evaluates the loop condition itself: the exit edge carries the
+            # join of what each incoming edge contributes to it (an edge whose state makes the
+            # condition true contributes nothing), not the branch of the joined state
+            if bi in heads and len(ins) > 1 and b.blocks[bi]['term']['k'] == 'switch':
+                ex = [s for (s, _x) in outs if s != 'ret' and not reaches(s, bi)]
+                if ex:
+                    per = {}
+                    self.quiet += 1
+                    try:
+                        for one in ins:
+                            try:
+                                o1 = self.exec_block(b, frame, bi, one.copy(), depth)
+                            except Bottom:
+                                o1 = []
+                            for (s, st2) in o1:
+                                if s in ex:
+                                    per[s] = st2 if s not in per else self.join(per[s], st2, (frame, b.path, bi, 'exit', s), False)
+                    finally:
+                        self.quiet -= 1
+                    outs = [(s, x) for (s, x) in outs if s not in ex] + [(s, x) for s, x in per.items()]
             exits.pop(bi, None)
             live = set()
             for (s, st2) in outs:
                 if s == 'ret':
                     exits[bi] = st2
                     continue
+                s = eff(s)
                 live.add(s)
+                into.setdefault(s, set()).add(bi)
+                if rpo.get(s, 1 << 30) <= rpo.get(bi, -1):
+                    heads.add(s)
                 old = edge.get((bi, s))
                 if old is not None and old.same(st2):
                     continue
@@ -1296,8 +1346,8 @@ class AbsInt:
                 if s not in inq:
                     heapq.heappush(heap, (rpo.get(s, 1 << 30), s))
                     inq.add(s)
-            for s in b.succ()[bi]:
-                if s not in live and (bi, s) in edge:
+            for s in [x for (p_, x) in list(edge) if p_ == bi]:
+                if s not in live:
                     del edge[(bi, s)]
                     if s not in inq:
                         heapq.heappush(heap, (rpo.get(s, 1 << 30), s))
@@ -1333,7 +1383,7 @@ class AbsInt:
                 if tid is not None:
                     self.cellty[cell] = tid
                 self.write_cell(st, cell, v)
-                if self.stmt_hook is not None:
+                if self.stmt_hook is not None and not self.quiet:
                     self.stmt_hook(self, st, frame, b, bi, si, s, v)
             elif k == 'dead':
                 root = ('L', frame, int(s['l']))
